@@ -241,3 +241,136 @@ class Pipeline:
                         base_facts = self.flow.must_at(holder)
                         return [(f, self.compose(k, here)) for f, k in self.elems(g.iter, frozenset(base_facts))]
         return [(frozenset(), f"unknown:{unparse(arg)[:40]}")]
+
+
+# ---------------------------------------------------------------- element sources of list-valued expressions
+
+class ElemSources:
+    """Where do the elements of a list-valued expression come from, and which facts hold for each element kept?
+
+    sources(e) -> list of (leaf iterable expression, facts (polarity, text with the element written as `$E`))
+    Understands comprehensions, conditional expressions, list()/sorted() wrappers, single-assignment locals and lists built by
+    `L = []` followed by `L.append(item)` / `L.extend(items)` in loops.  A leaf is whatever cannot be reduced further.
+    """
+
+    def __init__(self, ctx, fn: FuncInfo):
+        self.ctx, self.fn = ctx, fn
+        self.r = ctx.resolver(fn)
+        self.flow = ctx.flow(fn)
+        self.parents = ctx.parents(fn)
+
+    @staticmethod
+    def _norm(facts, var: str) -> frozenset:
+        out = set()
+        for pol, txt in facts:
+            if txt.startswith(("EV:", "MATCH:", "ITER:")):
+                continue
+            try:
+                e = ast.parse(txt, mode="eval").body
+            except SyntaxError:
+                continue
+            if var not in {x.id for x in ast.walk(e) if isinstance(x, ast.Name)}:
+                continue
+
+            class T(ast.NodeTransformer):
+                def visit_Call(self, c):
+                    self.generic_visit(c)
+                    # Path(x) / pathlib.Path(x) / str(x) of the element is the element for predicate purposes
+                    if isinstance(c.func, (ast.Name, ast.Attribute)) and (last_attr(c.func) in ("Path", "PurePath")) and len(c.args) == 1 and isinstance(c.args[0], ast.Name) and c.args[0].id == "$E":
+                        return c.args[0]
+                    return c
+
+                def visit_Name(self, n):
+                    return ast.copy_location(ast.Name(id="$E", ctx=n.ctx), n) if n.id == var else n
+
+            e2 = T().visit(T().visit(e))
+            out.add((pol, unparse(e2)))
+        return frozenset(out)
+
+    def _enclosing_loop_for(self, node: ast.AST, var: str):
+        cur = self.parents.get(id(node))
+        while cur is not None:
+            if isinstance(cur, ast.For) and isinstance(cur.target, ast.Name) and cur.target.id == var:
+                return cur
+            cur = self.parents.get(id(cur))
+        return None
+
+    def sources(self, e: ast.expr, depth: int = 8) -> list[tuple[ast.expr, frozenset]]:
+        if depth <= 0 or e is None:
+            return [(e, frozenset())]
+        if isinstance(e, ast.NamedExpr):
+            return self.sources(e.value, depth)
+        if isinstance(e, (ast.List, ast.Tuple)):
+            if not e.elts:
+                return []
+            if all(isinstance(x, ast.Starred) for x in e.elts):
+                out = []
+                for x in e.elts:
+                    out += self.sources(x.value, depth - 1)
+                return out
+            return [(e, frozenset())]
+        if isinstance(e, ast.IfExp):
+            return self.sources(e.body, depth - 1) + self.sources(e.orelse, depth - 1)
+        if isinstance(e, ast.BoolOp) and isinstance(e.op, ast.Or):
+            out = []
+            for v in e.values:
+                out += self.sources(v, depth - 1)
+            return out
+        if isinstance(e, ast.Call) and isinstance(e.func, ast.Name) and e.func.id in ("list", "tuple", "sorted", "set", "iter") and len(e.args) >= 1:
+            return self.sources(e.args[0], depth - 1)
+        if isinstance(e, ast.BinOp) and isinstance(e.op, ast.Add):
+            return self.sources(e.left, depth - 1) + self.sources(e.right, depth - 1)
+        if isinstance(e, (ast.ListComp, ast.GeneratorExp, ast.SetComp)):
+            if len(e.generators) == 1 and isinstance(e.generators[0].target, ast.Name):
+                g = e.generators[0]
+                v = g.target.id
+                if isinstance(e.elt, ast.Name) and e.elt.id == v:
+                    facts = set()
+                    for c in g.ifs:
+                        facts |= cond_facts(c, True)
+                    here = self._norm(facts, v)
+                    return [(leaf, f | here) for leaf, f in self.sources(g.iter, depth - 1)]
+            return [(e, frozenset())]
+        if isinstance(e, ast.Name):
+            sa = self.r.single_assignments()
+            built = self._built_list(e.id, depth)
+            if built is not None:
+                return built
+            if e.id in sa and e.id not in self.fn.params():
+                return self.sources(sa[e.id], depth - 1)
+            return [(e, frozenset())]
+        return [(e, frozenset())]
+
+    def _built_list(self, name: str, depth: int):
+        """`name = []` (once) and then only append/extend calls: union of what is appended."""
+        inits = [n for n in walk_no_nested(self.fn.node) if isinstance(n, (ast.Assign, ast.AnnAssign)) and n.value is not None
+                 and any(isinstance(t, ast.Name) and t.id == name for t in (n.targets if isinstance(n, ast.Assign) else [n.target]))]
+        if len(inits) != 1 or not (isinstance(inits[0].value, (ast.List, ast.Tuple)) and not inits[0].value.elts
+                                   or isinstance(inits[0].value, ast.Call) and call_name_of(inits[0].value) == "list" and not inits[0].value.args):
+            return None
+        out = []
+        found = False
+        for n in walk_no_nested(self.fn.node):
+            if isinstance(n, ast.Call) and isinstance(n.func, ast.Attribute) and isinstance(n.func.value, ast.Name) and n.func.value.id == name:
+                if n.func.attr == "append" and n.args:
+                    found = True
+                    a = n.args[0]
+                    loop = self._enclosing_loop_for(n, a.id) if isinstance(a, ast.Name) else None
+                    if loop is None:
+                        out.append((ast.List(elts=[a], ctx=ast.Load()), frozenset()))
+                        continue
+                    here = self._norm(self.flow.must_at(n), a.id)
+                    out += [(leaf, f | here) for leaf, f in self.sources(loop.iter, depth - 1)]
+                elif n.func.attr == "extend" and n.args:
+                    found = True
+                    out += self.sources(n.args[0], depth - 1)
+                elif n.func.attr in ("insert", "__iadd__"):
+                    return None
+            elif isinstance(n, ast.AugAssign) and isinstance(n.target, ast.Name) and n.target.id == name:
+                found = True
+                out += self.sources(n.value, depth - 1)
+        return out if found else None
+
+
+def call_name_of(c: ast.Call):
+    return c.func.id if isinstance(c.func, ast.Name) else None
